@@ -21,8 +21,8 @@ def gen(rng, facts):
     nt = rng.randint(1, 3)
     for _ in range(rng.randint(6, 40)):
         r = rng.random(); t = rng.randrange(nt); lg = rng.randrange(nl)
-        if r < 0.5: c.log(t, lg=lg, lvl=rng.choice([4, 4, 6, 8]), pad=rng.choice([0, 0, 10, 40]), mode=rng.choice([0, 0, 0, 1, 2]))
-        elif r < 0.58: c.log(t, lg=lg, lvl=9, pad=0, mode=rng.choice([0, 0, 1]))          # LOG_BACKTRACE (maybe without init)
+        if r < 0.5: c.log(t, lg=lg, lvl=rng.choice([4, 4, 6, 8]), pad=rng.choice([0, 0, 10, 40]), mode=rng.choice([0, 0, 0, 1, 2]), named=rng.random() < 0.4)
+        elif r < 0.58: c.log(t, lg=lg, lvl=9, pad=0, mode=rng.choice([0, 0, 1]), named=rng.random() < 0.4)          # LOG_BACKTRACE (maybe without init)
         elif r < 0.64: c.init_bt(t, lg=lg, cap=rng.choice([1, 2, 3]), flvl=rng.choice([10, 8, 6]))
         elif r < 0.70: c.flush_bt(t, lg=lg)
         elif r < 0.76: c.flush(t, lg=lg)
@@ -80,6 +80,14 @@ def monitor(case, obs):
                 missing += 1
     if missing > throws * max(1, len(case.sinks)):
         return '%d (statement, sink) deliveries are missing but the sinks throw only %d times in total' % (missing, throws)
+    # a sink sees exactly the statement's own named arguments: none for a positional statement (a transit event reused
+    # after a failed statement must not leak that statement's key/value pairs)
+    for pos, k, i, n in tr.named_seen:
+        d = tr.stmts.get(i)
+        if d is not None:
+            want = 2 if d.get('named') else 0
+            if n != want:
+                return 'sink %d received statement %d with %d named arguments, the statement has %d' % (k, i, n, want)
     # per-thread order among ordinary statements
     for k, ids in seen.items():
         last = {}
